@@ -243,6 +243,9 @@ def _search_dirs(dirs: List[Path], search_glob: str) -> List[Path]:
                 continue
             if name_part.startswith("_") and name_part != "__init__.py":
                 continue
+            # The glob also matches directories (e.g. `**/*` when no suffix is given), but we search for files.
+            if not path.is_file():
+                continue
 
             matched_files.append(path)
 
